@@ -82,9 +82,9 @@ def main(argv):
                     r1 = sh([os.path.join(VERIF, "check"), prop, "--replay", rp], env=e, cwd=VERIF)
                     e2 = dict(e, MIR_EVAL_SRC="/repo")
                     r0 = sh([os.path.join(VERIF, "check"), prop, "--replay", rp], env=e2, cwd=VERIF)
-                    ok = r1.returncode == 1 and "IDENTICAL" in r1.stdout and r0.returncode == 0
                     rec["attributable"].append({"class_site": classes[n] if n < len(classes) else None,
-                                                "replay_reproduces_on_patched": r1.returncode == 1 and "IDENTICAL" in r1.stdout,
+                                                "replay_reproduces_on_patched": r1.returncode == 1,
+                                                "replay_log_identical": "IDENTICAL" in r1.stdout,
                                                 "replay_clean_on_unpatched": r0.returncode == 0})
                 try:
                     os.unlink(rp)
